@@ -801,6 +801,25 @@ class Engine:
                 return fi
         return None
 
+    def verify_lemma(self, name: str, fn) -> FunctionResult:
+        """A lemma over contracts: `fn(ctx)` builds abstract objects (ctx.fresh_kind), states its hypotheses with
+        ctx.assume and returns {label: goal}; each goal is an obligation under the class invariants / prelude only (no code
+        is executed: the lemma chains what the contracts of the code already guarantee)."""
+        res = FunctionResult("lemma:" + name)
+        ctx = Ctx(self, "lemma:" + name, [])
+        res.paths = 1
+        try:
+            goals = self.run_spec(ctx, fn, ctx)
+            ctx.spec_mode = 0
+            res.entry_pc, res.entry_axioms = list(ctx.pc), list(ctx.axioms)
+            for lab, g in (goals or {}).items():
+                ctx.oblige("lemma.%s/lemma#%s" % (name, lab), lift_bool(g), kind="lemma")
+            res.normal_paths = 1
+        except EngineLimit as e:
+            res.limits.append(str(e))
+        res.obligations.extend(ctx.obligations)
+        return res
+
     def _verify_instance(self, finfo: FuncInfo, contract: Contract, cls, inst, res: FunctionResult):
         worklist: List[List[int]] = [[]]
         tagsuffix = ""
